@@ -25,6 +25,8 @@ pub struct Machine {
   pub out_add: u64,
   pub ill: Ill,
   pub shape: String,
+  /// transition operator used for every branch: "->" or the asynchronous "~>"
+  pub arrow: &'static str,
 }
 #[derive(Clone, Debug, PartialEq)]
 pub enum Ill { None, UndeclaredTarget, StateWithoutArm, WrongArgKind, NoStartState }
@@ -46,10 +48,10 @@ pub fn render(m: &Machine, arg: &str) -> String {
   s.push_str(&format!("#M(n<u64>) -> :{}(n)\n", if m.ill == Ill::NoStartState { "Q" } else { m.states[0] }));
   for (i, arm) in m.arms.iter().enumerate() {
     if arm.len() == 1 && arm[0].g == G::Always {
-      s.push_str(&format!("  :{}(n) -> :{}({})\n", m.states[i], sname(m, arm[0].target), utext(&arm[0].upd)));
+      s.push_str(&format!("  :{}(n) {} :{}({})\n", m.states[i], m.arrow, sname(m, arm[0].target), utext(&arm[0].upd)));
     } else {
       s.push_str(&format!("  :{}(n)\n", m.states[i]));
-      for (bi, b) in arm.iter().enumerate() { s.push_str(&format!("    {} {} -> :{}({})\n", if bi + 1 == arm.len() { "└" } else { "├" }, gtext(&b.g), sname(m, b.target), utext(&b.upd))); }
+      for (bi, b) in arm.iter().enumerate() { s.push_str(&format!("    {} {} {} :{}({})\n", if bi + 1 == arm.len() { "└" } else { "├" }, gtext(&b.g), m.arrow, sname(m, b.target), utext(&b.upd))); }
     }
   }
   s.push_str(&format!("  :D(n) => n{}.\n\n", if m.out_add > 0 { format!(" + {}u64", m.out_add) } else { String::new() }));
@@ -90,13 +92,15 @@ pub fn machines(tier: Tier) -> Vec<Machine> {
       for m in &menus { let (a, n) = &m[x % m.len()]; x /= m.len(); arms.push(a.clone()); shape.push(*n); }
       for out_add in [0u64, 100] {
         if out_add == 100 && idx % 3 != 0 { continue; }
-        out.push(Machine { states: NAMES[..k].to_vec(), arms: arms.clone(), out_add, ill: Ill::None, shape: format!("{}x[{}]", k, shape.join(",")) });
+        out.push(Machine { states: NAMES[..k].to_vec(), arms: arms.clone(), out_add, ill: Ill::None, shape: format!("{}x[{}]", k, shape.join(",")), arrow: "->" });
+        if out_add == 0 { out.push(Machine { states: NAMES[..k].to_vec(), arms: arms.clone(), out_add, ill: Ill::None, shape: format!("{}x[{}]~>", k, shape.join(",")), arrow: "~>" }); }
       }
       idx += stride;
     }
   }
   // ill-formed variants of a few base machines
   let base: Vec<Machine> = out.iter().filter(|m| m.states.len() <= 2 && m.out_add == 0).step_by(tier.pick(9, 3)).cloned().collect();
+  // (both transition operators are in `base`, so every ill-formed variant exists with -> and with ~>)
   for b in base {
     let mut m = b.clone(); m.ill = Ill::UndeclaredTarget; m.arms[0][0].target = 98; m.shape = format!("{}+undeclared-target", b.shape); out.push(m);
     // a state that is declared in the specification and entered by a transition but has no arm
@@ -105,6 +109,51 @@ pub fn machines(tier: Tier) -> Vec<Machine> {
     let mut m = b.clone(); m.ill = Ill::NoStartState; m.shape = format!("{}+undeclared-start", b.shape); out.push(m);
   }
   out
+}
+
+/// second family: a vector payload matched with spread patterns; the state is re-entered with a rebuilt vector
+#[derive(Clone, Debug)]
+pub struct VMachine { pub pat: &'static str, pub binds: &'static [&'static str], pub rebuild: Vec<&'static str>, pub done: &'static str, pub init: Vec<u64>, pub shape: String, pub arrow: &'static str }
+
+pub fn vmachines(tier: Tier) -> Vec<VMachine> {
+  let mut out = vec![];
+  let fams: [(&'static str, &'static [&'static str], &'static str, Vec<u64>, usize); 4] = [
+    ("[x … y]", &["x", "y"], "x + y", vec![1, 2, 3], 3), ("[… y]", &["y"], "y", vec![5, 6], 2), ("[x …]", &["x"], "x", vec![7, 8, 9], 3), ("[a b c]", &["a", "b", "c"], "a * 100u64 + b * 10u64 + c", vec![1, 2, 3], 3)];
+  for (pat, binds, done, init, len) in fams.iter() {
+    let mut items: Vec<&'static str> = binds.to_vec(); items.push("k"); items.push("2u64");
+    // every arrangement (with repetition) of `len` items for the rebuilt vector
+    let n = items.len().pow(*len as u32);
+    let stride = if tier == Tier::Quick && n > 40 { n / 40 + 1 } else { 1 };
+    let mut i = 0;
+    while i < n {
+      let mut x = i; let mut rb = vec![];
+      for _ in 0..*len { rb.push(items[x % items.len()]); x /= items.len(); }
+      for arrow in ["->", "~>"] { out.push(VMachine { pat, binds, rebuild: rb.clone(), done, init: init.clone(), shape: format!("vector-payload:{}:{}", pat.replace(' ', ""), arrow), arrow }); }
+      i += stride;
+    }
+  }
+  out
+}
+
+pub fn vrender(m: &VMachine, k: u64) -> String {
+  format!("#V(n<u64>) => <u64>\n  ├ :Scan(xs<[u64]>, k<u64>)\n  └ :Done(out<u64>).\n\n#V(n<u64>) -> :Scan([{}], n)\n  :Scan({}, k)\n    ├ k > 0u64 {} :Scan([{}], k - 1u64)\n    └ * -> :Done({})\n  :Done(out) => out.\n\nr := #V({}u64)",
+    m.init.iter().map(|v| format!("{}u64", v)).collect::<Vec<_>>().join(" "), m.pat, m.arrow, m.rebuild.join(" "), m.done, k)
+}
+
+/// reference for the vector family: (sequence of (state, k), result)
+pub fn vsimulate(m: &VMachine, k0: u64) -> (Vec<(String, u64)>, u64) {
+  let mut v = m.init.clone(); let mut k = k0;
+  let mut seq = vec![];
+  loop {
+    seq.push(("Scan".to_string(), k));
+    let bind = |name: &str, v: &Vec<u64>, k: u64| -> u64 { match (m.pat, name) { (_, "k") => k, (_, "2u64") => 2, ("[x … y]", "x") => v[0], ("[x … y]", "y") => v[v.len() - 1], ("[… y]", "y") => v[v.len() - 1], ("[x …]", "x") => v[0], ("[a b c]", "a") => v[0], ("[a b c]", "b") => v[1], ("[a b c]", "c") => v[2], _ => 0 } };
+    if k > 0 { let nv: Vec<u64> = m.rebuild.iter().map(|n| bind(n, &v, k)).collect(); v = nv; k -= 1; }
+    else {
+      let out = match m.pat { "[x … y]" => v[0] + v[v.len() - 1], "[… y]" => v[v.len() - 1], "[x …]" => v[0], _ => v[0] * 100 + v[1] * 10 + v[2] };
+      seq.push(("Done".to_string(), out));
+      return (seq, out);
+    }
+  }
 }
 
 pub enum Sim { Done(Vec<(String, u64)>, u64), Loops(usize), Stuck, Arithmetic }
@@ -137,8 +186,8 @@ fn observed_sequence(i: &Interpreter) -> Vec<(String, u64)> {
   v
 }
 
-pub struct C17 { tier: Tier, ms: Vec<Machine> }
-impl C17 { pub fn new(tier: Tier) -> C17 { C17 { tier, ms: machines(tier) } } }
+pub struct C17 { tier: Tier, ms: Vec<Machine>, vms: Vec<VMachine> }
+impl C17 { pub fn new(tier: Tier) -> C17 { C17 { tier, ms: machines(tier), vms: vmachines(tier) } } }
 
 fn run(src: &str, max_steps: usize) -> (Result<Canon, String>, Vec<(String, u64)>) {
   let tree = match parse_cached(src) { Some(t) => t, None => return (Err("ParseError".into()), vec![]) };
@@ -153,6 +202,22 @@ fn run(src: &str, max_steps: usize) -> (Result<Canon, String>, Vec<(String, u64)
 
 impl UnitRunner for C17 {
   fn unit(&mut self, _payload: &str, unit: u64, out: &mut WorkerOut) {
+    if unit as usize >= self.ms.len() {
+      let m = &self.vms[unit as usize - self.ms.len()];
+      for k in 0..=self.tier.pick(3u64, 4u64) {
+        out.evaluations += 1; out.nontrivial += 1;
+        let src = vrender(m, k);
+        let case = src.replace('\n', " ⏎ ");
+        let (r, seq) = run(&src, 60);
+        let (want_seq, want) = vsimulate(m, k);
+        match &r {
+          Ok(Canon::Num(kd, t)) if kd == "u64" && t.parse::<u64>().ok() == Some(want) => { if seq != want_seq { out.fail(format!("C17|wrong-trace|{}", m.shape), case, format!("visited {:?}, declaration determines {:?}", seq, want_seq)); } else { out.set("terminating_shapes", &m.shape); } }
+          Ok(o) => out.fail(format!("C17|wrong-output|{}", m.shape), case, format!("declaration determines {}<u64> via {:?}, got {} via {:?}", want, want_seq, o.short(), seq)),
+          Err(e) => out.fail(format!("C17|good-machine-rejected|{}", m.shape), case, format!("declaration determines {}, got Err({})", want, e)),
+        }
+      }
+      return;
+    }
     let m = &self.ms[unit as usize];
     let locus = m.shape.clone();
     for input in 0..=self.tier.pick(5u64, 7u64) {
@@ -208,9 +273,10 @@ impl Check for C17 {
   fn level(&self) -> &'static str { "model_checking" }
   fn unit_budget(&self, _t: Tier) -> Duration { Duration::from_secs(60) }
   fn drive(&mut self, tier: Tier, cfg: &PoolCfg, rep: &mut Report) {
-    let n = self.ms.len() as u64;
+    let n = (self.ms.len() + self.vms.len()) as u64;
     let ms = self.ms.clone();
-    rep.describe = Some(Box::new(move |_p, u| (ms[u as usize].shape.clone(), render(&ms[u as usize], "3u64").replace('\n', " ⏎ "))));
+    let vms = self.vms.clone();
+    rep.describe = Some(Box::new(move |_p, u| if (u as usize) < ms.len() { (ms[u as usize].shape.clone(), render(&ms[u as usize], "3u64").replace('\n', " ⏎ ")) } else { let v = &vms[u as usize - ms.len()]; (v.shape.clone(), vrender(v, 2).replace('\n', " ⏎ ")) }));
     drive_ranges(cfg, rep, range_jobs("", n, 2));
     let visited = rep.out.counters.get("visited_states").copied().unwrap_or(0);
     rep.cov("states", json!(rep.out.nontrivial.max(1)));
@@ -219,7 +285,7 @@ impl Check for C17 {
     let _ = visited;
     rep.cov("bounds", json!({"machines": n, "working_states_max": tier.pick(2, 3), "inputs": format!("0..={}", tier.pick(5, 7)), "max_steps_for_runs": 60, "limit_values": [1, 2, 3, 5, 8]}));
     rep.rule = format!("{} machines: every combination of per-state arm shapes (direct transition to every state, countdown, overlapping guards where the first passing guard must win, a shadowed second guard, step-two, a state that is stuck for small payloads) for 1..2 working states (and a deterministic 1-in-7 thinning for 3 working states in the thorough tier) with one u64 payload and an output state, each run on every input 0..{}; \
-      ill-formed variants (undeclared target, declared state without an arm, f64 argument, undeclared start state); the run is compared state by state (name and payload, read from the interpreter's own step trace events) and in its result with a reference simulator; the transition limit is checked at max_steps in {{1,2,3,5,8}}. states = runs judged, transitions = runs executed (each run is one trace validated against the implementation)", n, tier.pick(5, 7));
+      every machine with the synchronous -> and the asynchronous ~> transition operator; a vector-payload family (spread patterns [x … y], [… y], [x …], [a b c] whose state is re-entered with every arrangement of the bound names, k and a constant); ill-formed variants (undeclared target, declared state without an arm, f64 argument, undeclared start state); the run is compared state by state (name and payload, read from the interpreter's own step trace events) and in its result with a reference simulator; the transition limit is checked at max_steps in {{1,2,3,5,8}}. states = runs judged, transitions = runs executed (each run is one trace validated against the implementation)", n, tier.pick(5, 7));
     rep.assumptions = vec!["a configuration in which no guard holds, and payload underflow, are not judged beyond no panic/hang".into(), "the exact off-by-one of the transition limit is not judged (limit >= transitions+2 must succeed, limit < transitions must fail)".into()];
     if rep.out.sets.get("terminating_shapes").map(|s| s.len()).unwrap_or(0) < 20 { rep.vacuity.push("fewer than 20 machine shapes terminated with a compared trace".into()); }
   }
